@@ -64,15 +64,22 @@ def Simple.nameUsed (used : Map Bytes Bool) (n : Bytes) : Bool :=
   | some b => b
   | none => false
 
+/-- decimal digits of `n` (`%d`), most significant first; fuel `n + 1` always suffices -/
+def decAux : Nat → Nat → Bytes
+  | 0, _ => []
+  | fuel + 1, n => if n < 10 then [48 + n] else decAux fuel (n / 10) ++ [48 + n % 10]
+
+def dec (n : Nat) : Bytes := decAux (n + 1) n
+
+/-- `%03d` -/
 def pad3 (n : Nat) : Bytes :=
-  let d := natToDec n
-  List.replicate (3 - d.length) 48 ++ d
+  List.replicate (3 - (dec n).length) 48 ++ dec n
 
 /-- `fmt.Sprintf("orn%03d", idx)` -/
 def ornName (idx : Nat) : Bytes := [111, 114, 110] ++ pad3 idx
 
 /-- `fmt.Sprintf("%s.alt%d", base, alt)` -/
-def altName (base : Bytes) (alt : Nat) : Bytes := base ++ [46, 97, 108, 116] ++ natToDec alt
+def altName (base : Bytes) (alt : Nat) : Bytes := base ++ [46, 97, 108, 116] ++ dec alt
 
 /-- inner loop `for idx := len(used); idx >= 0; idx--`: first unused `ornNNN`, counting down;
     `none` when the loop runs to its end (then Go leaves `glyphName = "orn000"`) -/
@@ -81,17 +88,21 @@ def ornSearch (used : Map Bytes Bool) : Nat → Option Bytes
   | idx + 1 =>
     if Simple.nameUsed used (ornName (idx + 1)) then ornSearch used idx else some (ornName (idx + 1))
 
-/-- the `nameLoop` of `makeGlyphName`; `none` = fuel exhausted (no termination within fuel) -/
-def nameLoop (used : Map Bytes Bool) (base : Bytes) : Nat → Bytes → Nat → Option Bytes
-  | 0, _, _ => none
-  | fuel + 1, glyphName, alt =>
+/-- the `nameLoop` of `makeGlyphName` (state: base, glyphName, alt); `none` = fuel exhausted.
+    After a new candidate `base.altN` has been formed, an invalid candidate clears `base`, so that
+    the next round falls back to the generic `ornNNN` names (fix 2fa3edb). -/
+def nameLoop (used : Map Bytes Bool) : Nat → Bytes → Bytes → Nat → Option Bytes
+  | 0, _, _, _ => none
+  | fuel + 1, base, glyphName, alt =>
     if !isValidName glyphName || Simple.nameUsed used glyphName then
+      let next := altName base (alt + 1)
+      let base' := if isValidName next then base else []
       if base.length == 0 || glyphName.length > K.maxNameLen then
         match ornSearch used used.size with
         | some n => some n
-        | none => nameLoop used base fuel (altName base (alt + 1)) (alt + 1)
+        | none => nameLoop used fuel base' next (alt + 1)
       else
-        nameLoop used base fuel (altName base (alt + 1)) (alt + 1)
+        nameLoop used fuel base' next (alt + 1)
     else some glyphName
 
 /-- legitimate inputs end the loop after at most `len(glyphNameUsed) + 2 ≤ 259` rounds -/
@@ -106,7 +117,7 @@ def Simple.makeGlyphName (s : Simple) (gid : Nat) (defaultName fromUni : Bytes) 
   match s.glyphName.get gid with
   | some n => some (s, n)
   | none =>
-    match nameLoop s.glyphNameUsed (startName defaultName fromUni) nameFuel (startName defaultName fromUni) 0 with
+    match nameLoop s.glyphNameUsed nameFuel (startName defaultName fromUni) (startName defaultName fromUni) 0 with
     | none => none
     | some n =>
       some ({ s with glyphName := s.glyphName.insert gid n
@@ -184,7 +195,7 @@ def Simple.encode (base : Nat → Bytes) (s : Simple) (a : EncArgs) : Simple × 
   else if s.info.size ≥ K.simpleMaxCodes then ({ s with err := true }, .overflow, none)
   else
     match s.makeGlyphName a.gid a.baseName a.fromUni with
-    | none => (s, .overflow, none)   -- not reached within `nameFuel` (see Props: name_loop_terminates)
+    | none => (s, .overflow, none)   -- never taken from a reachable state (Props: encode_names_total)
     | some (s1, name) =>
       let pick := chooseCode base name a.r (fun c => s1.info.contains c)
       let (s2, res) := s1.encodeAt a.gid a.text a.width pick
